@@ -9,7 +9,7 @@ COVERS = ['*']
 DOMAIN = {'quick': '1D: all knot vectors p<=3 over 6 break sets with all interior multiplicities x derivative orders (du,dv)<=min(p,2) against exact '
                    'rational integrals; pairs of different degrees on a common mesh; polynomial weights; 2D/3D: Kronecker path vs generic path '
                    '(identity geometry) on mixed-degree non-uniform spaces, sums = measure, K 1 = 0, SPD; load vectors/integrals of polynomial '
-                   'data incl. affine and bilinear geometries; fast low-rank assembler on one smooth geometry; det/inverse kernels vs numpy',
+                   'data incl. affine, rotated, NURBS and orientation-reversing (det J < 0) geometries: load vector with f=1 = row sums of the mass matrix, sums = area, exact integrals on mapped rectangles; fast low-rank assembler on one smooth geometry; det/inverse kernels vs numpy',
           'thorough': 'as quick with p<=5 and more spaces'}
 RULE = 'case = (check, spaces); distinct by input'
 
@@ -119,9 +119,33 @@ def chk_geo(c):
         geo, area = geometry.bspline_quarter_annulus() if False else geometry.unit_square().rotate_2d(0.3), 1.0
     elif c['geo'] == 'annulus':
         geo, area = geometry.quarter_annulus(), np.pi * (4 - 1) / 4
+    elif c['geo'] == 'mirrored':          # orientation-reversing affine map (det J < 0): measures and integrals do not change sign
+        geo, area = geometry.unit_square().scale((-2.0, 3.0)).translate((1.0, -1.0)), 6.0
+    elif c['geo'] == 'reflected':         # reflection across the diagonal composed with a rotation: det J = -1
+        geo, area = geometry.unit_square().apply_matrix(np.array([[0.0, 1.0], [1.0, 0.0]])).rotate_2d(0.7), 1.0
+    elif c['geo'] == 'mirrored_annulus':
+        geo, area = geometry.quarter_annulus().scale((1.0, -1.0)), np.pi * (4 - 1) / 4
+    rtol = 1e-11 if 'annulus' not in c['geo'] else 1e-6
     M = assemble.mass(kvs, geo)
-    assert abs(M.sum() - area) <= (1e-11 if c['geo'] != 'annulus' else 1e-6) * area, 'mass entries sum to %r, area %r' % (M.sum(), area)
-    assert abs(assemble.integrate(kvs, lambda x, y: 1.0 + 0 * x, geo=geo, f_physical=True) - area) <= (1e-11 if c['geo'] != 'annulus' else 1e-6) * area
+    # load vector / inner products: with f = 1 they are the row sums of the mass matrix (partition of unity) and add up to the area
+    b1 = assemble.inner_products(kvs, lambda x, y: 1.0 + 0 * x, f_physical=True, geo=geo)
+    assert abs(b1.sum() - area) <= rtol * area, 'inner products with f=1 sum to %r, area %r' % (b1.sum(), area)
+    assert np.max(np.abs(b1.ravel() - M @ np.ones(M.shape[0]))) <= 1e-10 * max(1.0, abs(M).max()) + (1e-6 if 'annulus' in c['geo'] else 0), \
+        'inner products with f=1 differ from the row sums of the mass matrix by %g' % np.max(np.abs(b1.ravel() - M @ np.ones(M.shape[0])))
+    bp = assemble.inner_products(kvs, lambda x, y: 1.0 + 0 * x, geo=geo)          # parametric data, same thing
+    assert np.max(np.abs(bp - b1)) <= 1e-12 * max(1.0, np.max(np.abs(b1)))
+    # polynomial data in physical coordinates: sum of the load vector = integral = (for the axis-parallel maps) the exact value
+    fxy = lambda x, y: 1.0 + x * y
+    bf = assemble.inner_products(kvs, fxy, f_physical=True, geo=geo)
+    If = assemble.integrate(kvs, fxy, f_physical=True, geo=geo)
+    assert abs(bf.sum() - If) <= 1e-10 * max(1.0, abs(If)), 'sum of the load vector %r differs from integrate() %r' % (bf.sum(), If)
+    if c['geo'] in ('affine', 'mirrored'):
+        x0, x1 = (1.0, 3.0) if c['geo'] == 'affine' else (-1.0, 1.0)
+        y0, y1 = -1.0, 2.0
+        exact = (x1 - x0) * (y1 - y0) + (x1 ** 2 - x0 ** 2) / 2 * (y1 ** 2 - y0 ** 2) / 2
+        assert abs(If - exact) <= 1e-11 * max(1.0, abs(exact)), 'integral of 1 + x*y over the mapped rectangle is %r, exact %r' % (If, exact)
+    assert abs(M.sum() - area) <= rtol * area, 'mass entries sum to %r, area %r' % (M.sum(), area)
+    assert abs(assemble.integrate(kvs, lambda x, y: 1.0 + 0 * x, geo=geo, f_physical=True) - area) <= rtol * area
     ev = np.linalg.eigvalsh(M.toarray())
     assert ev[0] > 0
     S = assemble.stiffness(kvs, geo)
@@ -188,7 +212,7 @@ def generate(tier, rng):
     for k in range(3 if quick else 10):
         sp = [list(rng.choice([x for x in small if len(x[1]) <= 6])) for _ in range(3)]
         yield 'tp', {'kvs': sp}
-    for geo in ('affine', 'bilinear', 'annulus'):
+    for geo in ('affine', 'bilinear', 'annulus', 'mirrored', 'reflected', 'mirrored_annulus'):
         yield 'geo', {'geo': geo, 'space': [[2, 3], [3, 2]], 'fast': geo == 'annulus'}
         yield 'geo', {'geo': geo, 'space': [[1, 4], [2, 2]]}
     for seed in range(6):
